@@ -16,7 +16,7 @@ for sid in ids:
     if r.get("checks", {}).get(m["property"], {}).get("caught") or any(v["caught"] for v in r.get("checks", {}).values()): ncaught += 1
     st = m.get("checks_strengthened") or "—"
     rows.append("| %s | %s | %s | %s | %s |" % (sid, m["change"].replace("|", "/"), m["needs_to_manifest"].replace("|", "/"), "; ".join(parts) or "not run", st.replace("|", "/")))
-table = ("%d seeded changes are kept (plus 2 under `seeded/obsolete/`), every one confirmed here (demonstration passes on the unchanged tree and fails with the change; the repository's 61 tests pass with it); "
+table = ("%d seeded changes are kept (plus 3 under `seeded/obsolete/`), every one confirmed here (demonstration passes on the unchanged tree and fails with the change; the repository's 61 tests pass with it); "
          "%d are reported as a VIOLATION by the quick tier of their property's check (last run of `tools/run_seeded.py`, results in `seeded/RESULTS.json`). "
          "The last column says which of them the checks missed when first tried and what was added.\n\n"
          "| id | change | needs, to manifest | quick check outcome (first two oracle keys) | check strengthened? |\n|---|---|---|---|---|\n" % (len(ids), ncaught)) + "\n".join(rows) + "\n"
